@@ -89,7 +89,7 @@ func runC14(tb report.TB, rep *report.Reporter, c c14Case) {
 	if err != nil {
 		tb.Fatalf("harness: %v", err)
 	}
-	remoteNames := []string{"origin", "backup", "third"}[:c.NRemotes]
+	remoteNames := []string{"origin", "team/backup", "third"}[:c.NRemotes] // a remote name may contain a slash
 	for _, rn := range remoteNames {
 		rp := filepath.Join(dir, "remote-"+rn)
 		if _, err := repository.InitBareGoGitRepo(rp, "git-bug"); err != nil {
@@ -549,9 +549,13 @@ func runC14Wipe(tb report.TB, rep *report.Reporter, c c14WipeCase) {
 	if c.Remote {
 		rp := filepath.Join(dir, "remote.git")
 		RunGit(dir, "init", "-q", "--bare", rp)
-		RunGit(main, "remote", "add", "origin", rp)
+		remoteName := "origin"
+		if c.Seed%2 == 1 {
+			remoteName = "team/origin" // a remote name may contain a slash
+		}
+		RunGit(main, "remote", "add", remoteName, rp)
 		if c.WithIdentity {
-			if res := RunCLI(main, "push", "origin"); res.Code != 0 {
+			if res := RunCLI(main, "push", remoteName); res.Code != 0 {
 				tb.Fatalf("harness: push: %s", res.Out)
 			}
 			if c.RemoteOnlyBug && c.Bugs > 0 {
@@ -586,7 +590,7 @@ func runC14Wipe(tb report.TB, rep *report.Reporter, c c14WipeCase) {
 	for _, ref := range strings.Fields(left) {
 		parts := strings.Split(ref, "/")
 		isGitBug := strings.HasPrefix(ref, "refs/bugs/") || strings.HasPrefix(ref, "refs/identities/") ||
-			(len(parts) >= 5 && parts[1] == "remotes" && (parts[3] == "bugs" || parts[3] == "identities"))
+			(len(parts) >= 5 && parts[1] == "remotes" && (parts[len(parts)-2] == "bugs" || parts[len(parts)-2] == "identities") && len(parts[len(parts)-1]) == 64)
 		if isGitBug {
 			kind := "local-ref-left"
 			if parts[1] == "remotes" {
